@@ -275,3 +275,33 @@ def validate_call_witnesses(results, cmp=None):
             r["inconclusive"].append("witness mismatch (symbolic vs real): expected %s got %s for %s" % (
                 str(exp)[:300], str(o)[:400], str(w["replay"].get("args"))[:300]))
     return good
+
+
+def discharge(path, eng, res, checks, make_violation):
+    """checks: list of (label, bad) with bad a SymBool|bool ("the property fails").  One combined query
+    first (the disjunction); only when it is satisfiable are the disjuncts asked one by one."""
+    import z3
+    from shadow.values import b_or, bterm
+
+    live = []
+    for lbl, bad in checks:
+        res["checks"][lbl] = res["checks"].get(lbl, 0) + 1
+        if bad is False:
+            eng.stats.checks += 1
+            eng.stats.checks_discharged += 1
+        else:
+            live.append((lbl, bad))
+    if not live:
+        return
+    if len(live) > 1 and not any(b is True for _l, b in live):
+        allbad = b_or(*[b for _l, b in live])
+        if allbad is not True:
+            m = path.refute(bterm(allbad))
+            if m is None:
+                eng.stats.checks += len(live) - 1
+                eng.stats.checks_discharged += len(live) - 1
+                return
+    for lbl, bad in live:
+        m = path.refute(bterm(bad) if not isinstance(bad, bool) else z3.BoolVal(bad))
+        if m is not None:
+            res["violations"].append(make_violation(lbl, m))
